@@ -148,17 +148,17 @@ def walk3_err(x0: bool, x1: bool, x2: bool, y0: bool, y1: bool, y2: bool, z0: bo
     return _walk(parts, bool(p[0]), p[1], 2 if e0 else 1, False)
 
 
-def walk5(c0: str, m1: str, c1: str, m2: str, c2: str, e0: bool) -> bool:
+def walk5(c0: str, m1: str, c1: str, m2: str, c2: str) -> bool:
     """
-    Two markers (5 parts); partition "steps,independent,finish".
+    Two markers (5 parts of <= 1 character each, any unicode); partition "steps,independent,finish".
 
-    pre: len(c0) <= 2 and len(m1) <= 2 and len(c1) <= 1 and len(m2) <= 1 and len(c2) <= 1
+    pre: len(c0) <= 1 and len(m1) <= 1 and len(c1) <= 1 and len(m2) <= 1 and len(c2) <= 1
     post: _
     """
     if tick():
         return True
     p = [int(x) for x in (PART or "2,1,0").split(",")]
-    return _walk([c0, m1, c1, m2, c2], bool(p[1]), p[0], 1 if e0 else 0, bool(p[2]))
+    return _walk([c0, m1, c1, m2, c2], bool(p[1]), p[0], 0, bool(p[2]))
 
 
 def walk_reach(c0: str, m1: str, c1: str) -> bool:
